@@ -33,6 +33,7 @@ def main (args : List String) : IO UInt32 := do
   | ["claimtrace"] => loop inp Driver.ClaimTrace.step (); return 0
   | ["bridgestore"] => loop inp Driver.BridgeStore.step (Aggkit.BridgeStore.BP.init Driver.Tree.H Driver.Tree.N); return 0
   | ["l1infostore"] => loop inp Driver.L1InfoStore.step (Aggkit.L1InfoStore.LP.init Driver.Tree.H Driver.Tree.N); return 0
+  | ["evmger"] => loop inp Driver.L1InfoStore.step (Aggkit.L1InfoStore.LP.init Driver.Tree.H Driver.Tree.N); return 0
   | ["downloader"] => loop inp Driver.Downloader.step (); return 0
   | ["gersync"] => loop inp Driver.LastGER.step {}; return 0
   | ["evmbridge"] => loop inp Driver.EvmBridge.step {}; return 0
